@@ -66,6 +66,15 @@ SOURCES["v10"] = dict(SOURCES["v4"], **{f"ca/src/m/t{i:02}.rs": f"#[typeshare]\n
 ROOTS = {"v10": ["", "ca", "ca/src/m"]}
 
 
+# v11 = nothing but constants, one per file, in one crate (MC_Writer!MCVersions): for the backends without constants the version fails
+SOURCES["v11"] = {f"limits/src/c{i:02}.rs": f"#[typeshare]\npub const LIMIT_{i:02}: u32 = {i};\n" for i in range(12)}
+FAILS_FOR = {"v11": {"swift", "kotlin", "scala"}}
+
+
+def fails(v, lang):
+    return v in FAILS or lang in FAILS_FOR.get(v, ())
+
+
 # (in single-file mode v8 would put two same-named definitions into one file: the arrival-order finding listed under C06)
 MULTI_ONLY = {"v8"}
 
@@ -136,11 +145,11 @@ def run(chk):
                 continue
             set_sources(src, v)
             try:
-                ref = run_into(os.path.join(base, f"ref_{v}"), src, lang, mode, v in FAILS, ROOTS.get(v, ("",)))
+                ref = run_into(os.path.join(base, f"ref_{v}"), src, lang, mode, fails(v, lang), ROOTS.get(v, ("",)))
             except Refused as e:
                 refusals.append((lang, mode, [v], str(e)))
                 continue
-            if v in FAILS:
+            if fails(v, lang):
                 if ref:
                     events.append({"ev": "reset"})
                     meta.append(None)
@@ -165,11 +174,11 @@ def run(chk):
                 set_sources(src, v)
                 time.sleep(0.003)
                 try:
-                    snap = run_into(out, src, lang, mode, v in FAILS, ROOTS.get(v, ("",)))
+                    snap = run_into(out, src, lang, mode, fails(v, lang), ROOTS.get(v, ("",)))
                 except Refused as e:
                     refusals.append((lang, mode, list(h[:k + 1]), str(e)))
                     break
-                events.append({"ev": "run", "v": v, "failed": v in FAILS, "files": snap})
+                events.append({"ev": "run", "v": v, "failed": fails(v, lang), "files": snap})
                 meta.append({"lang": lang, "mode": mode, "history": list(h[:k + 1])})
             shutil.rmtree(out, ignore_errors=True)
         return lang, mode, events, meta
